@@ -9,6 +9,7 @@
    pass the height of the tree, growChildAndRemove's retry on the same node consumes one unit as well).  The
    copy-on-write context and the free list only recycle memory and are not modelled (Clone is not used by PD). *)
 From Coq Require Import List ZArith Bool.
+From PDV Require Import model.C07_BTreeSpec.
 Import ListNotations.
 Local Open Scope Z_scope.
 
@@ -424,23 +425,45 @@ Section BTree.
     end.
 
   (* func (n *node) iterate(ascend, start, nil, includeStart=true, hit, iter) with an iterator that never stops:
-     the items the iterator is offered, in order.  `hit` does not influence this direction when includeStart. *)
+     the items the iterator is offered, in order.  `hit` does not influence this direction when includeStart.
+     asc_loop is the `for i := index; i < len(n.items); i++` loop followed by the visit of the last child
+     (k = number of remaining rounds, i = current index; rec = the recursive call on a child). *)
+  Fixpoint asc_loop (rec : node -> list A) (its : list A) (ch : list node) (k i : nat) : list A :=
+    match k with
+    | O => match last_opt ch with Some c => rec c | None => [] end
+    | S k' =>
+        (match nth_error ch i with Some c => rec c | None => [] end)
+        ++ match nth_error its i with Some x => x :: asc_loop rec its ch k' (S i) | None => [] end
+    end.
+
   Fixpoint ascend_from (fuel : nat) (n : node) (start : option A) : list A :=
     match fuel with
     | O => []
     | S f =>
         let index := match start with Some s => fst (items_find (n_its n) s) | None => O end in
-        let its := n_its n in let ch := n_ch n in
-        (fix loop (k : nat) (i : nat) : list A :=        (* k = number of remaining rounds, i = current index *)
-           match k with
-           | O => match ch with [] => [] | _ => match last_opt ch with Some c => ascend_from f c start | None => [] end end
-           | S k' =>
-               (match nth_error ch i with Some c => ascend_from f c start | None => [] end)
-               ++ match nth_error its i with Some x => x :: loop k' (S i) | None => [] end
-           end) (length its - index)%nat index
+        asc_loop (fun c => ascend_from f c start) (n_its n) (n_ch n) (length (n_its n) - index) index
     end.
 
-  (* iterate(descend, start, nil, includeStart=true, hit, iter): items <= start, descending; returns (items, hit) *)
+  (* iterate(descend, start, nil, includeStart=true, hit, iter): items <= start, descending; returns (items, hit).
+     desc_loop is the `for i := index; i >= 0; i--` loop (k rounds left: current i = k - 1). *)
+  Fixpoint desc_loop (rec : node -> bool -> list A * bool) (start : A) (its : list A) (ch : list node)
+                     (k : nat) (hit0 : bool) : list A * bool :=
+    match k with
+    | O => ([], hit0)
+    | S i =>
+        match nth_error its i with
+        | None => ([], hit0)
+        | Some x =>
+            if negb (ltb x start) && (hit0 || ltb start x) then desc_loop rec start its ch i hit0     (* continue *)
+            else
+              let '(sub, _) := match nth_error ch (S i) with
+                               | Some c => rec c hit0
+                               | None => ([], hit0) end in
+              let '(rest, hit'') := desc_loop rec start its ch i true in
+              (sub ++ x :: rest, hit'')
+        end
+    end.
+
   Fixpoint descend_from (fuel : nat) (n : node) (start : A) (hit : bool) : list A * bool :=
     match fuel with
     | O => ([], hit)
@@ -449,23 +472,7 @@ Section BTree.
         let '(fi, found) := items_find its start in
         (* index = found ? fi : fi - 1 ; the loop runs i = index .. 0 *)
         let rounds := if found then S fi else fi in
-        let '(acc, hit1) :=
-          (fix loop (k : nat) (hit0 : bool) : list A * bool :=      (* k rounds left: current i = k - 1 *)
-             match k with
-             | O => ([], hit0)
-             | S i =>
-                 match nth_error its i with
-                 | None => ([], hit0)
-                 | Some x =>
-                     if negb (ltb x start) && (hit0 || ltb start x) then loop i hit0     (* continue *)
-                     else
-                       let '(sub, hit') := match nth_error ch (S i) with
-                                           | Some c => descend_from f c start hit0
-                                           | None => ([], hit0) end in
-                       let '(rest, hit'') := loop i true in
-                       (sub ++ x :: rest, hit'')
-                 end
-             end) rounds hit in
+        let '(acc, hit1) := desc_loop (fun c h => descend_from f c start h) start its ch rounds hit in
         match ch with
         | [] => (acc, hit1)
         | c0 :: _ => let '(sub, hit2) := descend_from f c0 start hit1 in (acc ++ sub, hit2)
@@ -491,3 +498,79 @@ Arguments Node {A}.
 Arguments node : clear implicits.
 Arguments btree : clear implicits.
 Arguments BT {A}.
+
+(* ---------------------------------------------------------------------------------------- *)
+(* Correspondence with pkg/btree on Int items: the same operations as model/C07_BTreeSpec.v (bop / bobs), run on
+   the Gallina B-tree; the driver also dumps the real tree's node structure, compared with `bt_root`. *)
+Definition zt := btree Z.
+
+Definition with_root {X} (t : zt) (dflt : X) (f : node Z -> nat -> X) : X :=
+  match bt_root t with None => dflt | Some r => f r (S (height r)) end.
+
+Definition bt2_step (t : zt) (o : bop) : option (zt * bobs) :=
+  match o with
+  | BIns x => match replace_or_insert Z.ltb t x with Some (t', r) => Some (t', BoItem r) | None => None end
+  | BDel x => match delete_item Z.ltb t (RemoveItem x) with Some (t', r) => Some (t', BoItem r) | None => None end
+  | BDelMin => match delete_item Z.ltb t RemoveMin with Some (t', r) => Some (t', BoItem r) | None => None end
+  | BDelMax => match delete_item Z.ltb t RemoveMax with Some (t', r) => Some (t', BoItem r) | None => None end
+  | BGet x => Some (t, BoItem (with_root t None (fun r h => get Z.ltb h r x)))
+  | BGetIdx x => let '(r, i) := with_root t (None, 0%Z) (fun r h => get_with_index Z.ltb h r x) in Some (t, BoIdx r i)
+  | BGetAt k => Some (t, BoItem (with_root t None (fun r h => get_at h r k)))
+  | BAsc x lim => Some (t, BoList (firstn (Z.to_nat lim) (with_root t [] (fun r h => ascend_from Z.ltb h r (Some x)))))
+  | BDesc x lim => Some (t, BoList (firstn (Z.to_nat lim) (with_root t [] (fun r h => fst (descend_from Z.ltb h r x false)))))
+  | BLen => Some (t, BoNum (bt_length t))
+  | BMin => Some (t, BoItem (with_root t None (fun r h => node_min h r)))
+  | BMax => Some (t, BoItem (with_root t None (fun r h => node_max h r)))
+  | BRanks =>
+      let n := Z.to_nat (bt_length t) in
+      let items := map (fun k => match with_root t None (fun r h => get_at h r (Z.of_nat k)) with
+                                 | Some x => x | None => (-999999)%Z end) (seq 0 n) in
+      let idx := map (fun x => snd (with_root t (None, 0%Z) (fun r h => get_with_index Z.ltb h r x))) items in
+      Some (t, BoRanks items idx)
+  end.
+
+(* (observations, tree after each operation); None = the Go code would have panicked *)
+Fixpoint bt2_run (t : zt) (ops : list bop) : list (option (bobs * option (node Z))) :=
+  match ops with
+  | [] => []
+  | o :: r => match bt2_step t o with
+              | Some (t', b) => Some (b, bt_root t') :: bt2_run t' r
+              | None => [None]
+              end
+  end.
+
+Fixpoint node_eqb (a b : node Z) : bool :=
+  match a, b with
+  | Node i1 c1 x1, Node i2 c2 x2 =>
+      zlist_eqb i1 i2 && zlist_eqb x1 x2 &&
+      (fix all2 (l1 l2 : list (node Z)) : bool :=
+         match l1, l2 with
+         | [], [] => true
+         | a1 :: r1, a2 :: r2 => node_eqb a1 a2 && all2 r1 r2
+         | _, _ => false
+         end) c1 c2
+  end.
+
+Definition shape_eqb (a b : option (node Z)) : bool :=
+  match a, b with Some x, Some y => node_eqb x y | None, None => true | _, _ => false end.
+
+(* positions where the Gallina B-tree and the implementation differ: (op index, what differs) *)
+Inductive bt2_diff := D2Obs (i : nat) (model impl : option bobs) | D2Shape (i : nat) | D2Panic (i : nat).
+
+Fixpoint bt2_check (i : nat) (run : list (option (bobs * option (node Z)))) (obs : list bobs)
+                   (shapes : list (nat * option (node Z))) : list bt2_diff :=
+  match run, obs with
+  | [], [] => []
+  | Some (b, root) :: rr, g :: gr =>
+      if bobs_eqb b g then
+        match shapes with
+        | (j, sh) :: sr =>
+            if Nat.eqb j i then (if shape_eqb root sh then bt2_check (S i) rr gr sr else [D2Shape i])
+            else bt2_check (S i) rr gr shapes
+        | [] => bt2_check (S i) rr gr []
+        end
+      else [D2Obs i (Some b) (Some g)]
+  | None :: _, _ => [D2Panic i]
+  | Some (b, _) :: _, [] => [D2Obs i (Some b) None]
+  | [], g :: _ => [D2Obs i None (Some g)]
+  end.
